@@ -36,7 +36,7 @@ def battery(seed, n):
 
     rng = random.Random("battery/%d" % seed)
     items = []
-    kinds = ["tree", "doc", "doc", "textdoc", "headc", "jsx", "css", "classes", "attrs", "typed_attrs", "jsonmode", "retry", "shared", "longtwin", "dyninst", "bigrepr", "headc_list"]
+    kinds = ["tree", "doc", "doc", "textdoc", "headc", "jsx", "css", "classes", "attrs", "typed_attrs", "jsonmode", "retry", "shared", "longtwin", "dyninst", "bigrepr", "headc_list", "headc_big", "doccopy", "root_reuse"]
     for i in range(n):
         k = kinds[i % len(kinds)]
         if k == "tree":
@@ -87,6 +87,13 @@ def battery(seed, n):
             items.append((k, {"sizes": [rng.choice([100, 2047, 2048, 3000, 5000, 70000]) for _ in range(rng.randint(3, 8))], "n": i}))
         elif k == "headc_list":
             items.append((k, {"n": i % 4, "extra": rng.randint(1, 3)}))
+        elif k == "headc_big":
+            # payloads far larger than any chunk size, alike except near the end / in the middle / at the start
+            items.append((k, {"size": rng.choice([65536, 65537, 70000, 131072 + 5, 200001]), "where": rng.choice(["end", "end", "middle", "start"]), "n": i}))
+        elif k == "doccopy":
+            items.append((k, {"n": i, "append_to": rng.choice(["copy", "original"]), "attrs": rng.random() < 0.5}))
+        elif k == "root_reuse":
+            items.append((k, {"n": i, "root_attrs": rng.random() < 0.4, "root": rng.choice(["html", "html", "body"])}))
         elif k == "longtwin":
             # a long text with metacharacters, once as plain text and (in another item) as HTML(): which came first must not matter
             txt = "long <b>text</b> & more " * 4 + "#%d" % (i % 3)
@@ -186,6 +193,34 @@ def _run_item(kind, r):
               and both["html"].count("<title>list-payload") == 2 and both["html"].count('name="later0"') == 1
               and [d.name for d in both["dependencies"]] == [n1, hc2.name])
         return {"html": _d(both["html"]), "names": [n1, hc2.name], "same_when_rendered_again": ok}
+    if kind == "headc_big":
+        base = "/* %d */" % r["n"] + "x" * r["size"]
+        cut = {"end": len(base) - 3, "middle": len(base) // 2, "start": 12}[r["where"]]
+        a_, b_ = base, base[:cut] + "Y" + base[cut + 1:]
+        ha, hb, ha2 = ht.head_content(ht.tags.style(a_)), ht.head_content(ht.tags.style(b_)), ht.head_content(ht.tags.style(a_))
+        out = ht.HTMLDocument(ht.div(ha, hb, ha2)).render()
+        ok = ha.name != hb.name and ha.name == ha2.name and out["html"].count(a_) == 1 and out["html"].count(b_) == 1 and [d.name for d in out["dependencies"]] == [ha.name, hb.name]
+        return {"html": _d(out["html"]), "names": [ha.name, hb.name], "same_when_rendered_again": ok}
+    if kind == "doccopy":
+        import copy as _copy
+
+        mk = lambda: ht.HTMLDocument(ht.div("doc %d" % r["n"], ht.HTMLDependency("dc", "1.0", script={"src": "dc.js"})), **({"lang": "en"} if r["attrs"] else {}))  # noqa: E731
+        doc, fresh = mk(), mk()
+        variant = _copy.copy(doc)
+        first, second = (variant, doc) if r["append_to"] == "copy" else (doc, variant)
+        first.append(ht.p("only in one of them"), ht.head_content(ht.tags.title("variant %d" % r["n"])))
+        a_ = second.render()
+        b_ = fresh.render()
+        ok = a_["html"] == b_["html"] and [d.name for d in a_["dependencies"]] == [d.name for d in b_["dependencies"]] and "only in one of them" in first.render()["html"]
+        return {"html": _d(a_["html"]), "same_when_rendered_again": ok}
+    if kind == "root_reuse":
+        mk = (lambda: ht.tags.html(ht.tags.body("page %d" % r["n"]), **({"id": "root"} if r["root_attrs"] else {}))) if r["root"] == "html" else \
+             (lambda: ht.tags.body("page %d" % r["n"], **({"id": "root"} if r["root_attrs"] else {})))     # noqa: E731
+        pg, pristine = mk(), mk()
+        ht.HTMLDocument(pg, lang="en", class_="first").render()
+        later = (str(pg), ht.HTMLDocument(pg).render()["html"], ht.HTMLDocument(pg, lang="fr").render()["html"])
+        want = (str(pristine), ht.HTMLDocument(mk()).render()["html"], ht.HTMLDocument(mk(), lang="fr").render()["html"])
+        return {"html": _d("|".join(later)), "same_when_rendered_again": later == want}
     if kind == "longtwin":
         x = ht.HTML(r["s"]) if r["html"] else r["s"]
         t = ht.div(x, title=r["s"]) if r["also_attr"] else ht.div(x)
